@@ -214,10 +214,10 @@ def check_C01(tier, rng, rep):
     jobs = []
     o = {"check_c10": False}
     if quick:
-        jobs += pair_jobs(U2, lambda k: [POLY[k % 3]], rng, per_universe=70, opts=o)
-        jobs += pair_jobs(U2, ["sim-mmu-float"], rng, per_universe=20, classes=("T",), opts=o)
-        jobs += pair_jobs(U2, lambda k: [CURVED[k % 3]], rng, per_universe=30, classes=("T",), opts=o)
-        jobs += pair_jobs(U3, lambda k: [(POLY + CURVED)[k % 6]], rng, per_universe=80, classes=("T",), opts=o)
+        jobs += pair_jobs(U2, lambda k: [POLY[k % 3]], rng, per_universe=50, opts=o)
+        jobs += pair_jobs(U2, ["sim-mmu-float"], rng, per_universe=12, classes=("T",), opts=o)
+        jobs += pair_jobs(U2, lambda k: [CURVED[k % 3]], rng, per_universe=20, classes=("T",), opts=o)
+        jobs += pair_jobs(U3, lambda k: [(POLY + CURVED)[k % 6]], rng, per_universe=50, classes=("T",), opts=o)
     else:
         jobs += pair_jobs(U2, POLY + CURVED[:2], rng, opts=o)
         jobs += pair_jobs(U2, ["cubic-float", "poly-mixed", "poly-frac-rot", "sim-mmu-float"], rng, per_universe=150, classes=("T",), opts=o)
@@ -227,7 +227,7 @@ def check_C01(tier, rng, rep):
     rep.add_results("pairs", res, nontrivial=nontrivial_pair)
     # (c) nested expressions: simulated behaviours of the heap model
     sims, jobs = sim_jobs([rng.choice(U2[2:])] if quick else U2[2:] + ["U3hole"], ["poly-frac", "poly-float"] if quick else POLY + CURVED,
-                          num=40 if quick else 200, depth=9, seed=runner.seed() + 11, opts=o,
+                          num=24 if quick else 200, depth=9, seed=runner.seed() + 11, opts=o,
                           acts=("make", "bin", "inv"), regs=3, maxobj=6, constraint="SimDomain")
     for un, r in sims:
         rep.add_tlc("ShapeSys-sim/" + un, r)
